@@ -1,7 +1,7 @@
 #!/bin/bash
 # usage: extract.sh <out.json> [dev|release]  -- runs the driver over /repo's working tree
 set -e
-OUT=$1; PROFILE=${2:-dev}
+OUT=$(realpath -m "$1"); PROFILE=${2:-dev}
 REPO=${ATSA_REPO:-/repo}
 export LD_LIBRARY_PATH=$(rustc +nightly --print sysroot)/lib
 export CARGO_NET_OFFLINE=true
